@@ -1275,6 +1275,39 @@ bool dispatch_api(State& st, const std::string& op, const json& a, json& ret)
         ret = rawdump(a);
         return true;
     }
+    if (op == "foreign_crate")
+    {
+        // A 2.x crate row as another writer leaves it: inserted by SQL (the schema's own triggers link it into the
+        // sibling chain), with the flags of the caller's choosing - the crate API always writes isPersisted = 1.
+        if (!st.is_v2) throw harness_error("foreign_crate is for 2.x libraries");
+        sqlite3* conn = lib_conn();
+        int64_t parent = 0;
+        if (a.contains("c") && !a["c"].is_null()) parent = st.C(a["c"].get<std::string>()).id();
+        raw_query(conn,
+                  "INSERT INTO Playlist (title, parentListId, isPersisted, nextListId, lastEditTime, isExplicitlyExported) "
+                  "VALUES (?, ?, ?, 0, '2024-05-01 12:00:00', ?)",
+                  json::array({json{{"t", a.at("name")}}, parent, a.value("persisted", false) ? 1 : 0, a.value("exported", false) ? 1 : 0}));
+        int64_t id = raw_query(conn, "SELECT MAX(id) FROM Playlist")["rows"][0][0].get<int64_t>();
+        auto c = st.D().crate_by_id(id);
+        if (c && a.contains("as")) st.crates.insert_or_assign(a["as"].get<std::string>(), *c);
+        st.names.insert(js(a.at("name")));
+        ret = id;
+        return true;
+    }
+    if (op == "wipe_dir")
+    {
+        // empties a directory (the user deletes a library in order to start again in the same place)
+        namespace fs = std::filesystem;
+        int n = 0;
+        std::error_code ec;
+        for (auto& e : fs::directory_iterator(a.at("dir").get<std::string>(), ec))
+        {
+            fs::remove_all(e.path(), ec);
+            ++n;
+        }
+        ret = n;
+        return true;
+    }
     if (op == "foreign_reorder")
     {
         // What Engine DJ does when the user drags the last item of a list to the top: the chain is re-linked by a
